@@ -152,6 +152,7 @@ type Interp struct {
 	expectPanic bool
 	depth    int
 	curFr    *frame
+	tmpDirs  int
 	ghost    map[string]Value
 	speculating bool
 	merges   int
